@@ -5,7 +5,7 @@ import json, sys, time
 import z3
 from base import *
 import strs
-from strs import (SymStr, ChoiceStr, str_alts, choice_merge, choice_map, choice_bool, choice_int, choice_str, sym, is_str,
+from strs import (DecStr, SymStr, ChoiceStr, str_alts, choice_merge, choice_map, choice_bool, choice_int, choice_str, sym, is_str,
                   str_len, str_at, str_eq, str_lt, sym_concat, sym_ite_str, str_slice, sym_index, sym_contains,
                   sym_hasprefix, sym_hassuffix, sym_trim, sym_replace1, sym_replace_all_conc, sym_split1,
                   cells_to_slice_content, slice_to_str, len_gt, mk as mk_str)
@@ -1626,6 +1626,12 @@ def _sprintf(e, st, args, ins):
             pieces.append(v)
         elif verb in (b'd', b'v') and isinstance(v, int) and not isinstance(v, bool):
             pieces.append(str(v).encode())
+        elif verb == b'd' and fmt == b'%d' and is_sym(v) and z3.is_bv(v) and v.size() == 64 and e.feasible(And(st.pc, z3.UGE(v, 100))):
+            # the whole text is the decimal rendering of a full-range 64-bit value: kept abstract (sign, magnitude)
+            signed = dt in ('int', 'int64')
+            if signed:
+                return DecStr(sb(v < 0), si(z3.If(v < 0, -v, v), signed=False))
+            return DecStr(False, v)
         elif verb in (b'd', b'v') and is_sym(v) and z3.is_bv(v):
             # bounded decimal rendering (<= 2 digits) + bound obligation
             bad = sb(And(st.pc, z3.UGE(v, 100)))
@@ -1881,6 +1887,18 @@ def i_big_bytes(e, st, a, i):
     for k in range(1, 9):
         n = z3.If(z3.UGE(m, bvc(1 << (8 * (k - 1)), 64)), bvc(k, 64), n)
     n = si(n, signed=False)
+    if getattr(e, 'big_bytes_split', False) and is_sym(n):
+        # case split on the length (the bytes are concatenated / re-sliced by the caller: offsets must be concrete)
+        cnt = e.nondet_count.get('big.bytes', 0)
+        e.nondet_count['big.bytes'] = cnt + 1
+        name = 'big.bytes.len%d' % cnt
+        if name not in e.fork_values:
+            raise NeedFork(name, 9)
+        L = e.fork_values[name]
+        st.pc = sb(And(st.pc, n == L))
+        cells = [si(z3.Extract(7, 0, z3.LShR(m, bvc(8 * (L - 1 - pos), 64))), signed=False) for pos in range(L)]
+        obj = e.new_obj(st, tuple(cells), ('arr', 'uint8'))
+        return SliceV(obj, 0, L, L, False)
     cells = []
     for pos in range(8):
         # byte at position pos of the minimal big-endian rendering: (m >> 8*(n-1-pos)) & 0xff
@@ -2096,6 +2114,17 @@ def i_re_quotemeta(e, st, a, i):
     if isinstance(s, ChoiceStr):
         return choice_str(choice_map(go_quotemeta, s))
     raise Unsupported('regexp.QuoteMeta of a fully symbolic string (use a pool of concrete alternatives)')
+
+
+def _format_int(e, st, a, signed):
+    v, base = a
+    if base != 10:
+        raise Unsupported('strconv.Format(U)int with a base other than 10')
+    if not is_sym(v):
+        return str(v).encode()
+    if signed:
+        return DecStr(sb(v < 0), si(z3.If(v < 0, -v, v), signed=False))
+    return DecStr(False, v)
 
 
 def i_nondet_string(e, st, a, i):
@@ -2394,6 +2423,8 @@ INTRINSICS = {
     '(*regexp.Regexp).FindString': i_re_findstring,
     'regexp.MustCompile': i_re_mustcompile,
     'regexp.QuoteMeta': i_re_quotemeta,
+    'strconv.FormatInt': lambda e, st, a, i: _format_int(e, st, a, True),
+    'strconv.FormatUint': lambda e, st, a, i: _format_int(e, st, a, False),
     'github.com/grpc-ecosystem/go-grpc-middleware/util/metautils.ExtractIncoming': lambda e, st, a, i: MapV(((True, None),)),
     'github.com/google/uuid.New': lambda e, st, a, i: e.zero(i['type']),
     # names of protobuf enum values only flow into log / error text
